@@ -89,8 +89,16 @@ def _map_tree(stmts, fs):
 
 def _rename_tree(stmts, ren, lab):
     """rename variables (dict) and labels (prefix) of a helper body"""
+    def fname(name):
+        # a function-pointer parameter bound to a named function: the indirect call becomes a direct one
+        if name.startswith('indirect:') and name[9:] in ren and ren[name[9:]][0] == 'var':
+            return ren[name[9:]][1]
+        return name
+
     def rx(e):
         def f(x):
+            if x[0] == 'call' and fname(x[1]) != x[1]:
+                return ('call', fname(x[1])) + x[2:]
             if x[0] == 'var' and x[1] in ren:
                 return ren[x[1]]
             if x[0] == 'idx' and x[1] in ren and ren[x[1]][0] == 'var':
@@ -103,7 +111,7 @@ def _rename_tree(stmts, ren, lab):
         if k == 'assign':
             return [('assign', rx(s[1]), rx(s[2]), s[3])]
         if k == 'call':
-            return [('call', s[1], tuple(rx(a) for a in s[2]), s[3])]
+            return [('call', fname(s[1]), tuple(rx(a) for a in s[2]), s[3])]
         if k == 'if':
             return [('if', rx(s[1]), s[2], s[3], s[4])]
         if k == 'return':
@@ -148,7 +156,7 @@ def inline_helpers(ctree, helpers, sigs, depth=0):
         if len(args) != len(params):
             raise AnalysisBroken('helper %s: argument count differs at line %s' % (name, line))
         _INL[0] += 1
-        tag = '$h%d_' % _INL[0]
+        tag = 'inl%d__' % _INL[0]
         assigned = set()
         for s in _walk_stmts(tree):
             if s[0] == 'assign' and s[1][0] in ('var', 'idx'):
@@ -294,6 +302,49 @@ def install_modinfo(units, prog):
     # Treated as by-value on both sides (DESIGN.md: accepted by-reference artefact).
     tv.MODINFO['f']['fermi'] = set()
     tv.MODINFO['c'] = modinfo_c(prog)
+    tv.PUREOUT['f'], tv.PUREOUT['c'] = pureout_f(units), pureout_c(prog)
+
+
+def pureout_f(units):
+    out = {}
+    for name, u in units.items():
+        w = tv.MODINFO['f'].get(name) or set()
+        if not w:
+            continue
+        try:
+            common = {v for vs in u.commons.values() for v in vs}
+            sf = tv.Side('f', u.name, u.params, u.arrays, common, u.name if u.kind == 'function' else None)
+            g = cfgm.compact(tv.rewrite_cfg(cfgm.build(list(u.body)), sf), drop=('nop', 'io'))
+            ps = [sf.var(p)[1] for p in u.params]
+            out[name] = {i for i in w if i < len(ps) and ps[i] not in u.arrays and tv.assigned_before_read(g, ps[i])}
+        except Exception:
+            out[name] = set()
+    return out
+
+
+def pureout_c(prog, sigs=None):
+    out = {}
+    sigs = sigs or cpp2ir.build_sigs(prog)
+    for (qn, fid), fn in prog.functions.items():
+        if fn.get('method') or not qn.startswith('bxdecay0::'):
+            continue
+        n = qn.split('::')[-1].lower()
+        if n.startswith('decay0_'):
+            n = n[7:]
+        n = tv.CALLEE_ALIAS.get(n, n)
+        kept = [p for p in fn['params'] if p['ty'] not in cpp2ir.CTX_TYPES and p['name'] != '']
+        w = [i for i, p in enumerate(kept) if p['pm'] in ('ref', 'ptr') and p['ty'].replace('const ', '').strip() in ('double &', 'int &', 'float &')]
+        if not w:
+            continue
+        try:
+            tree, lo = cpp2ir.lower_function(fn, sigs)
+            sc = tv.Side('c', fn['name'], [p['name'] for p in fn['params']])
+            g = cfgm.compact(tv.rewrite_cfg(cfgm.build(tree), sc), drop=('nop', 'io'))
+            res = {i for i in w if tv.assigned_before_read(g, sc.var(kept[i]['name'])[1])}
+        except Exception:
+            res = set()
+        out[n] = (out[n] & res) if n in out else res
+    return out
 
 
 class Result:
